@@ -83,6 +83,8 @@ var c16Statements = []string{
 	"INSERT INTO t1 (id, plain, c1) VALUES (%d, 'x', '$2b$%s')", // a value for a protected column that begins like a placeholder
 	"UPDATE t1 SET c1 = ':v%s' WHERE id = %d",
 	"UPDATE t1 SET c1 = '$%s' WHERE id = %d",
+	"UPDATE t2 SET note = 'x' FROM (SELECT '%s' AS m, %d AS n) s WHERE t2.id = 1", // sub-select in the FROM of an UPDATE
+	"SELECT id, note FROM t2 WHERE note = '%s' OR id = %d",                        // (the statement a query_ignore rule may list)
 }
 
 // statements in the MySQL dialect (MySQL runs)
@@ -148,13 +150,14 @@ var c16MyStatements = []string{
 	"INSERT INTO t1 (id, plain, c1) VALUES (%d, 'x', '$2b$%s')", // a value for a protected column that begins like a placeholder
 	"UPDATE t1 SET c1 = ':v%s' WHERE id = %d",
 	"INSERT INTO t1 (id, plain, c1) VALUES (%d, 'x', ':v%s') ON DUPLICATE KEY UPDATE c1 = ':%s'",
+	"SELECT id, note FROM t2 WHERE note = '%s' OR id = %d", // (the statement a query_ignore rule may list)
 }
 
 func (C16) Explore(x *kernel.Explorer, seed uint64) {
 	r := kernel.NewRNG(seed, 0xc16)
 	for i := 0; i < 4 && !x.Expired(); i++ {
 		plan := &kernel.Plan{Prop: "C16", Seed: kernel.Mix(seed, uint64(i)), Swarm: map[string]int64{
-			"chunk": int64(r.Intn(4)), "level": int64(r.Intn(3)), "format": int64(r.Intn(3)), "extended": int64(r.Intn(2)), "ignoreparse": int64(r.Intn(2)), "strictparse": int64(r.Intn(3) / 2), "mysql": int64(r.Intn(3) / 2), "depeof": int64(r.Intn(2)), "rawmy": int64(r.Intn(2)), "reexec": int64(r.Intn(2)), "wyield": int64(r.Intn(2))}}
+			"chunk": int64(r.Intn(4)), "level": int64(r.Intn(3)), "format": int64(r.Intn(3)), "extended": int64(r.Intn(2)), "ignoreparse": int64(r.Intn(2)), "strictparse": int64(r.Intn(3) / 2), "qignore": int64(r.Intn(3) / 2), "mysql": int64(r.Intn(3) / 2), "depeof": int64(r.Intn(2)), "rawmy": int64(r.Intn(2)), "reexec": int64(r.Intn(2)), "wyield": int64(r.Intn(2))}}
 		n := 2 + r.Intn(8)
 		for j := 0; j < n; j++ {
 			plan.Ops = append(plan.Ops, kernel.Op{ID: j + 1, Kind: "stmt", A: []int64{int64(r.Intn(len(c16Statements) * len(c16MyStatements)))}})
@@ -203,22 +206,11 @@ func (C16) Run(t *testing.T, plan *kernel.Plan, keepLog bool) *kernel.Result {
 			log.SetLevel(log.WarnLevel)
 		}
 		cols := []colKind{{Name: "c1", Envelope: "acrablock"}, {Name: "c2", Token: "int32"}}
-		censorYAML := fmt.Sprintf("version: 0.85.0\nignore_parse_error: %v\nhandlers:\n  - handler: deny\n    tables:\n      - t9\n", plan.Sw("ignoreparse") == 1)
 		mysql := plan.Sw("mysql") == 1
 		statements, dbms := c16Statements, "pg"
 		if mysql {
 			statements, dbms = c16MyStatements, "mysql"
 		}
-		pw, err := NewPgWorld(w, rng, PgWorldConfig{SchemaYAML: schemaYAML(cols), CensorYAML: censorYAML, Clients: []string{owner}, ChunkMode: int(plan.Sw("chunk")),
-			MySQL: mysql, MyDeprecateEOF: plan.Sw("depeof") == 1, StrictParser: plan.Sw("strictparse") == 1})
-		if err != nil {
-			w.Violate("C16", "world-builds", "pg", err.Error())
-			return
-		}
-		defer pw.Censor.ReleaseAll()
-		pw.DB.AddTable("t1", Col{"id", TInt8}, Col{"plain", TText}, Col{"c1", TBytea}, Col{"c2", TInt4})
-		pw.DB.AddTable("t2", Col{"id", TInt8}, Col{"note", TText})
-		pw.DB.AddTable("t9", Col{"id", TInt8}, Col{"note", TText})
 		var script []Stmt
 		type mark struct {
 			text string
@@ -241,6 +233,27 @@ func (C16) Run(t *testing.T, plan *kernel.Plan, keepLog bool) *kernel.Result {
 			script = append(script, Stmt{SQL: fmt.Sprintf(tm, args...), Extended: plan.Sw("extended") == 1 && !strings.HasPrefix(tm, "SELEC ")})
 			marks = append(marks, mark{sm, i}, mark{fmt.Sprint(nm), i})
 		}
+		// in a third of the runs the firewall starts with a query_ignore rule that lists one statement of the session
+		ignoreRule := ""
+		if plan.Sw("qignore") == 1 {
+			for _, st := range script {
+				if strings.HasPrefix(st.SQL, "SELECT id, note FROM t2 WHERE note = ") {
+					ignoreRule = fmt.Sprintf("  - handler: query_ignore\n    queries:\n      - %q\n", st.SQL)
+					break
+				}
+			}
+		}
+		censorYAML := fmt.Sprintf("version: 0.85.0\nignore_parse_error: %v\nhandlers:\n%s  - handler: deny\n    tables:\n      - t9\n", plan.Sw("ignoreparse") == 1, ignoreRule)
+		pw, err := NewPgWorld(w, rng, PgWorldConfig{SchemaYAML: schemaYAML(cols), CensorYAML: censorYAML, Clients: []string{owner}, ChunkMode: int(plan.Sw("chunk")),
+			MySQL: mysql, MyDeprecateEOF: plan.Sw("depeof") == 1, StrictParser: plan.Sw("strictparse") == 1})
+		if err != nil {
+			w.Violate("C16", "world-builds", "pg", err.Error())
+			return
+		}
+		defer pw.Censor.ReleaseAll()
+		pw.DB.AddTable("t1", Col{"id", TInt8}, Col{"plain", TText}, Col{"c1", TBytea}, Col{"c2", TInt4})
+		pw.DB.AddTable("t2", Col{"id", TInt8}, Col{"note", TText})
+		pw.DB.AddTable("t9", Col{"id", TInt8}, Col{"note", TText})
 		run := pw.RunSession(owner, script)
 		if w.Res.Cut {
 			return
